@@ -130,4 +130,10 @@ example : convertLabel Gen.autowarePairsMerged "Vehicle.Bus" = "CAR" := by decid
 example : ("no such thing" : String).toLower ∉ regNames Gen.autowarePairs := by decide +kernel
 example : Gen.autowarePairs ∈ tables := by decide +kernel
 
+/-! ## the regenerated tables are not empty (an empty table would make every `∀ p ∈ table` theorem above vacuous) -/
+theorem label_tables_nonempty :
+    Gen.autowareLabel ≠ [] ∧ Gen.trafficLightLabel ≠ [] ∧ Gen.autowarePairs ≠ [] ∧ Gen.autowarePairsMerged ≠ [] ∧
+    Gen.trafficLightPairsClassification ≠ [] ∧ Gen.trafficLightPairsOther ≠ [] ∧ Gen.trafficLightTableOfTask ≠ [] := by
+  decide
+
 end PEval.C14
